@@ -47,7 +47,9 @@ P(x, y, z) == <<x, y, z, NoT>>
 NoPrior == P(NoT, NoT, NoT)
 
 (* ------------------------------ comparison ------------------------------ *)
-Ints   == {IntT(0), IntT(1), IntT(-1), IntT(2), IntE(1, 62), IntE(-1, 63), IntE(1, 40), IntT(1073741823)}
+(* 2^62 +- 1, i64::MIN + 1, i64::MAX = 2^63 - 1, 2^54 + 1: neighbours which convert to the same float *)
+BigNeighbours == {IntA(1, 62, 1), IntA(1, 62, -1), IntA(-1, 63, 1), IntA(1, 63, -1), IntA(1, 54, 1), IntE(1, 54)}
+Ints   == {IntT(0), IntT(1), IntT(-1), IntT(2), IntE(1, 62), IntE(-1, 63), IntE(1, 40), IntT(1073741823)} \cup BigNeighbours
 (* (2^64, -2^64, 2^70: whole-valued floats outside the i64 range) *)
 Flts   == {Flt(0, 0), FltS("-0"), Flt(1, 0), Flt(-1, 0), Flt(1, -1), Flt(3, -1), Flt(-3, -1),
            Flt(1, 62), Flt(1, -20), Flt(5, -2), Flt(1, 40), Flt(1, 64), Flt(-1, 64), Flt(1, 70), Flt(-1, 63), Flt(1, 63)}
@@ -55,7 +57,7 @@ Atoms  == {a, b, Atom("ab"), Atom("B"), Atom("a b"), Atom("{U+00E9}"), Atom("{U+
            Atom("10"), Atom("9"), Atom("07"), Atom("a{U+00E9}")}
 NonC   == {Y, Cx("f", <<a>>), Lst(<<a>>), Anon, EmptyList}
 Oprs   == Ints \cup Flts \cup Atoms \cup NonC
-OprsQ  == {IntT(0), IntT(1), IntT(-1), IntE(1, 62), IntE(-1, 63), Flt(0, 0), FltS("-0"), Flt(1, 0),
+OprsQ  == {IntT(0), IntT(1), IntT(-1), IntE(1, 62), IntE(-1, 63), IntA(1, 62, 1), IntA(1, 63, -1), IntA(-1, 63, 1), Flt(0, 0), FltS("-0"), Flt(1, 0),
            Flt(3, -1), Flt(-3, -1), Flt(1, 62), Flt(-1, 64), Flt(1, 63), Flt(-1, 63), a, b, Atom("ab"), Atom("B"), Atom("a b"), Atom("{U+00E9}"),
            Atom("10"), Atom("9"), Y, Cx("f", <<a>>), Anon}
 CmpOprs == IF Thorough THEN Oprs ELSE OprsQ
@@ -102,10 +104,12 @@ CntCalls == {[f |-> "count", args |-> <<l, o>>, prior |-> p] :
                 p \in CntPriors}
 
 (* ------------------------------ include / exclude ------------------------ *)
-FltPats  == {a, Y, Anon, Cx("f", <<Anon>>), Cx("f", <<Y>>), LstT(<<Anon>>, Anon), IntT(1), Z, EmptyList, Lst(<<Y>>)}
+FltPats  == {a, Y, Anon, Cx("f", <<Anon>>), Cx("f", <<Y>>), LstT(<<Anon>>, Anon), IntT(1), Z, EmptyList, Lst(<<Y>>),
+             Cx("g", <<Y, Y>>), LstT(<<Y, Y>>, Anon)}      \* the same unbound variable twice: both places must agree
 FltLists == {EmptyList, Lst(<<a>>), Lst(<<a, b, a>>), Lst(<<Cx("f", <<a>>), b, Cx("f", <<b>>)>>),
              Lst(<<a, Lst(<<b>>)>>), Lst(<<Lst(<<a>>), a>>), Lst(<<a, EmptyList>>), Lst(<<IntT(1), a, Flt(3, -1)>>),
-             X, LstT(<<a>>, X), Lst(<<Z, b>>), Lst(<<b, Lst(<<a>>), Lst(<<b, a>>)>>)}
+             X, LstT(<<a>>, X), Lst(<<Z, b>>), Lst(<<b, Lst(<<a>>), Lst(<<b, a>>)>>),
+             Lst(<<Cx("g", <<a, a>>), Cx("g", <<a, b>>), Lst(<<a, a>>), Lst(<<a, b, b>>), Cx("g", <<b, b>>)>>)}
 FltPriors == {NoPrior, P(Lst(<<b, a>>), NoT, a), P(Lst(<<Cx("f", <<a>>), Lst(<<a>>)>>), NoT, Cx("f", <<b>>)),
               P(EmptyList, a, b)}
 FltPatsT  == {Cx("g", <<Y, Y>>), Cx("g", <<Anon, a>>), Lst(<<Anon>>), LstT(<<a>>, Anon), Cx("f", <<Cx("f", <<Anon>>)>>), b, Atom("c")}
@@ -143,6 +147,9 @@ PrCalls ==
        {[f |-> "print", args |-> <<Fm(fs), x>>, prior |-> p] : fs \in {"%s", "<%s>", "x%s", "%s.\n"}, x \in PrArgs, p \in PrPriors}
   \cup {[f |-> "print", args |-> <<Fm(fs), x, y>>, prior |-> p] : fs \in {"%s-%s", "a%sb%sc", "%s%s"}, x \in A, y \in PrArgs, p \in PrPriors}
   \cup {[f |-> "print", args |-> <<Fm("%sx%s%s"), x, y, z>>, prior |-> P(a, NoT, X)] : x \in A, y \in A, z \in PrArgsQ}
+  (* the format string reached through a variable (and through a chain of two) *)
+  \cup {[f |-> "print", args |-> <<X, y>>, prior |-> P(Fm(fs), NoT, NoT)] : fs \in {"%s", "<%s>", "x%s"}, y \in PrArgsQ}
+  \cup {[f |-> "print", args |-> <<Z, y, a>>, prior |-> P(Fm(fs), NoT, X)] : fs \in {"%s-%s", "a%sb%sc"}, y \in PrArgsQ}
   \cup {[f |-> "print", args |-> <<x>>, prior |-> p] : x \in PrArgs, p \in PrPriors}
   \cup {[f |-> "print", args |-> <<x, y>>, prior |-> p] : x \in PrArgs, y \in PrArgs, p \in PrPriors}
   \cup {[f |-> "print", args |-> <<x, y, z>>, prior |-> P(a, NoT, X)] : x \in A, y \in A, z \in A}
